@@ -22,8 +22,8 @@ EXTENDS Wire, Json
 
 Trace == ndJsonDeserialize("trace.ndjson")
 
-VARIABLES l, prog, cur, lay, nrm, encb
-vars == <<l, prog, cur, lay, nrm, encb>>
+VARIABLES l, prog, cur, lay, nrm, encb, segs
+vars == <<l, prog, cur, lay, nrm, encb, segs>>
 
 Ev == Trace[l]
 Is(e) == l <= Len(Trace) /\ Ev.ev = e
@@ -35,7 +35,7 @@ Report(fails) == IF fails = <<>> THEN TRUE
                  ELSE PrintT(<<"VERDICT", ToJson([i |-> l, ev |-> Ev.ev, lang |-> Ev.lang, fails |-> fails])>>)
 
 \* first leaf segment whose bytes differ between the expected layout and the observed bytes
-Segs == Segments(prog, cur.pkt, cur.val)
+Segs == segs      \* computed once per message (state variable)
 Slice(bs, sg) == SubSeq(bs, sg.off + 1, IF sg.off + sg.len <= Len(bs) THEN sg.off + sg.len ELSE Len(bs))
 FirstDiff(obs) ==
   LET bad == {i \in 1..Len(Segs) : Slice(obs, Segs[i]) # Slice(lay, Segs[i])} IN
@@ -49,15 +49,16 @@ FirstValDiff(val) ==
       bad == {i \in 1..n : val.fs[i] # nrm.fs[i]} IN
   IF bad = {} THEN "<arity>" ELSE fs[CHOOSE i \in bad : \A j \in bad : i <= j].name
 
-Init == l = 1 /\ prog = NoProg /\ cur = NoMsg /\ lay = <<>> /\ nrm = NoMsg.val /\ encb = [L \in Langs |-> <<-1>>]
+Init == segs = <<>> /\ l = 1 /\ prog = NoProg /\ cur = NoMsg /\ lay = <<>> /\ nrm = NoMsg.val /\ encb = [L \in Langs |-> <<-1>>]
 
 Load == /\ Is("load") /\ prog' = Ev.prog /\ cur' = NoMsg /\ lay' = <<>> /\ nrm' = NoMsg.val
-        /\ encb' = [L \in Langs |-> <<-1>>] /\ l' = l + 1
+        /\ encb' = [L \in Langs |-> <<-1>>] /\ segs' = <<>> /\ l' = l + 1
 
 Msg == /\ Is("msg")
        /\ cur' = [id |-> Ev.id, pkt |-> Ev.pkt, val |-> Ev.val]
        /\ lay' = Layout(prog, Ev.pkt, Ev.val)
        /\ nrm' = Norm(prog, Ev.pkt, Ev.val)
+       /\ segs' = Segments(prog, Ev.pkt, Ev.val)
        /\ encb' = [L \in Langs |-> <<-1>>]
        /\ l' = l + 1 /\ UNCHANGED prog
 
@@ -66,7 +67,7 @@ Ref == /\ Is("ref")
        /\ IF Ev.bytes = lay THEN TRUE
           ELSE PrintT(<<"VERDICT", ToJson([i |-> l, ev |-> "ref", lang |-> "harness",
                           fails |-> <<[kind |-> "ref-differs", field |-> FirstDiff(Ev.bytes).name]>>])>>)
-       /\ l' = l + 1 /\ UNCHANGED <<prog, cur, lay, nrm, encb>>
+       /\ l' = l + 1 /\ UNCHANGED <<prog, cur, lay, nrm, encb, segs>>
 
 \* Codec!Encode(L, m): bytes = Layout(p, m); the checksum service saw exactly the prefix
 CalcOK == \A k \in 1..Len(Ev.calcs) :
@@ -79,7 +80,7 @@ Enc == /\ Is("enc")
                    \o (IF CalcOK THEN <<>> ELSE <<[kind |-> "checksum-coverage", field |-> "-", part |-> "-"]>>)
           IN Report(fails)
        /\ encb' = [encb EXCEPT ![Ev.lang] = IF Ev.ok THEN Ev.bytes ELSE <<-1>>]
-       /\ l' = l + 1 /\ UNCHANGED <<prog, cur, lay, nrm>>
+       /\ l' = l + 1 /\ UNCHANGED <<prog, cur, lay, nrm, segs>>
 
 \* Codec!Decode(L, Layout ++ tail); Codec!Reencode(L)
 Dec == /\ Is("dec")
@@ -89,7 +90,7 @@ Dec == /\ Is("dec")
                    \o (IF Ev.consumed = Len(lay) THEN <<>> ELSE <<[kind |-> "consumed-differ", field |-> "-"]>>)
                    \o (IF Ev.reenc = lay THEN <<>> ELSE <<[kind |-> "reencode-differ", field |-> FirstDiff(Ev.reenc).name]>>)
           IN Report(fails)
-       /\ l' = l + 1 /\ UNCHANGED <<prog, cur, lay, nrm, encb>>
+       /\ l' = l + 1 /\ UNCHANGED <<prog, cur, lay, nrm, encb, segs>>
 
 \* Codec!CrossDecode(L2, L1): decoder L2 on the bytes encoder L1 really produced
 XDec == /\ Is("xdec")
@@ -97,21 +98,24 @@ XDec == /\ Is("xdec")
                IF ~Ev.ok THEN <<[kind |-> Ev.cls, field |-> Ev.from]>>
                ELSE IF Ev.val = nrm THEN <<>> ELSE <<[kind |-> "cross-value-differ", field |-> Ev.from]>>
            IN Report(fails)
-        /\ l' = l + 1 /\ UNCHANGED <<prog, cur, lay, nrm, encb>>
+        /\ l' = l + 1 /\ UNCHANGED <<prog, cur, lay, nrm, encb, segs>>
 
 \* Codec!DecodeUnknownKey(L): status = "error", nothing after the key's payload position is consumed
 DecKey == /\ Is("deckey")
           /\ LET fails == IF Ev.outcome = "error" THEN <<>> ELSE <<[kind |-> "unknown-key-" \o Ev.outcome, field |-> "-"]>>
              IN Report(fails)
-          /\ l' = l + 1 /\ UNCHANGED <<prog, cur, lay, nrm, encb>>
+          /\ l' = l + 1 /\ UNCHANGED <<prog, cur, lay, nrm, encb, segs>>
 
 \* all encoders that produced bytes agree (C03 matrix, encoder side), reported once per message
 Agree == /\ Is("agree")
          /\ LET got == {L \in Langs : encb[L] # <<-1>>}
-                bad == {L \in got : \E M \in got : encb[L] # encb[M]} IN
+                \* the languages that drift: those that differ from the canonical layout while another
+                \* language produced it; if nobody produced it, everybody who differs from somebody
+                bad == IF \E M \in got : encb[M] = lay THEN {L \in got : encb[L] # lay}
+                       ELSE {L \in got : \E M \in got : encb[L] # encb[M]} IN
             IF bad = {} THEN TRUE
             ELSE PrintT(<<"VERDICT", ToJson([i |-> l, ev |-> "agree", lang |-> "all", fails |-> <<[kind |-> "encoders-disagree", field |-> bad]>>])>>)
-         /\ l' = l + 1 /\ UNCHANGED <<prog, cur, lay, nrm, encb>>
+         /\ l' = l + 1 /\ UNCHANGED <<prog, cur, lay, nrm, encb, segs>>
 
 Next == Load \/ Msg \/ Ref \/ Enc \/ Dec \/ XDec \/ DecKey \/ Agree
 Spec == Init /\ [][Next]_vars
